@@ -55,7 +55,11 @@ def gen_block_body(rnd, level, bname, is_root, allow_super, depth=0):
     if rnd.random() < 0.25 and [n for n in BN if n != bname and n + "n" not in USED]:
         nb = rnd.choice([n for n in BN if n != bname and n + "n" not in USED])
         USED.add(nb + "n")
-        body.append(("block", nb + "n", gen_block_body(rnd, level, nb + "n", is_root, False, 1), rnd.random() < 0.5))
+        if not is_root and rnd.random() < 0.3:
+            # a required block introduced by an intermediate template inside one of its blocks: nobody overrides it
+            body.append(("block", "%sr%d" % (nb, level), [], False, True))   # a name no other template uses
+        else:
+            body.append(("block", nb + "n", gen_block_body(rnd, level, nb + "n", is_root, False, 1), rnd.random() < 0.5))
     body.append(("text", "."))
     return body
 
@@ -167,6 +171,10 @@ def setup(param):
     global P, TEMPLATES, ENV, LEAF
     P = dict(param or {})
     TEMPLATES, LEAF = gen_hierarchy(P.get("prog", 0))
+    # every third hierarchy spells its blocks with names that read like attributes of the objects behind self / super
+    M.BLOCK_RENAME.clear()
+    if P.get("prog", 0) % 3 == 1:
+        M.BLOCK_RENAME.update({"a": "name", "b": "blocks", "c": "context", "an": "environment", "bn": "render", "cn": "stack"})
     src = {n: M.pstmts(s, M.ident) for n, s in TEMPLATES.items()}
     ENV = Environment(loader=DictLoader(src), enable_async=bool(P.get("asyncm")))
     for n in src:
